@@ -745,13 +745,17 @@ def _cg_case(prm: dict):
     kmax = prm.get("kmax", min(npx, 8))
     x0c = torch.view_as_complex(x0.contiguous()).reshape(n_, npx).to(torch.complex128)
     ref = []
+    live_all = []
     for b_ in range(n_):
+        live = []
+        live_all.append(live)
         A = As[b_]
         B = cfac * (A.conj().T @ A) + lam64 * torch.eye(npx, dtype=torch.complex128)
         xr = x0c[b_].clone()
         r = cfac * (A.conj().T @ yc[b_]) + lam64 * zc[b_] - B @ xr
         pdir = r.clone()
         its = []
+        rr0 = float(torch.vdot(r, r).real)
         for k in range(kmax):
             rr = torch.vdot(r, r)
             Bp = B @ pdir
@@ -760,6 +764,9 @@ def _cg_case(prm: dict):
             xr = xr + a * pdir
             r2 = r - a * Bp
             beta = torch.vdot(r2, r2) / rr if abs(rr) > 0 else 0.0
+            # comparable pass: it neither starts from nor lands on a residual that is rounding noise (the exact landing on the
+            # solution after as many passes as B has distinct eigenvalues is not reproduced in float32)
+            live.append(float(rr.real) > 1e-6 * rr0 and float(torch.vdot(r2, r2).real) > 1e-6 * rr0)
             pdir = r2 + beta * pdir
             r = r2
             its.append(xr.clone())
@@ -773,7 +780,9 @@ def _cg_case(prm: dict):
         refk = torch.stack([ref[b_][k - 1] for b_ in range(n_)])
         dev = float((xkc - refk).norm()) / (float(refk.norm()) + float(x0c.norm()) + 1e-12)
         worst_it = max(worst_it, dev)
-        if k <= 5 and not dev <= 1e-2:
+        # (once the residual of a sample is rounding noise — few distinct eigenvalues: converged early — further passes divide
+        #  noise by noise in the block and in the reference alike and the iterates are no longer comparable)
+        if k <= 5 and all(lv[k - 1] for lv in live_all) and not dev <= 1e-2:
             fails.append((f"cg-iterate-{upd}", f"iterate after {k} passes differs from the conjugate-gradient iterate of the "
                                                f"normal equations: relative deviation {dev:.3g}"))
             break
@@ -923,8 +932,8 @@ def _cg_budget_case(prm: dict):
     """ill-conditioned systems (un-normalised maps with log-normal magnitudes, small lambda) under the iteration budgets
     the code and the configurations ship.  "To solver tolerance" cannot mean the dense solution here (the budget is far
     below the dimension); what the block must still deliver pass by pass is conjugate-gradient behaviour:
-      * the error in the energy norm ||x_k - x*||_B strictly decreases with every further pass, until the loop's own
-        tolerance test holds for the returned iterate (the only legitimate reason to stop early),
+      * the error in the energy norm ||x_k - x*||_B does not increase with a further pass, and a further pass changes the
+        returned iterate until the loop's own tolerance test holds for it (the only legitimate reason to stop early),
       * never worse than the start (energy norm and objective)."""
     from direct.nn.conjgradnet.conjgrad import CGUpdateType, ConjGrad
 
@@ -960,18 +969,25 @@ def _cg_budget_case(prm: dict):
     fails, errs = [], []
     e0 = err_b(zc)
     errs.append(e0)
-    xk = zc
+    xk, prev = zc, z
+    slack = 1e-4 * e0 * max(1.0, cond * 1e-6)
+    # |<r, B p>| of the first pass: `complex_division` squares it; beyond the float32 range the step length becomes 0 and the
+    # block returns its start (the float-range finding of C02, not judged here — see `_float_range_note`)
+    den0 = max(abs(complex(torch.vdot(bs[i] - Bs[i] @ zc[i], Bs[i] @ (bs[i] - Bs[i] @ zc[i])))) for i in range(n_))
     for k in range(1, iters + 1):
         with torch.no_grad():
-            xk = cplx(ConjGrad(fop, bop, num_iters=k, tol=tol, bk_update_type=upd)(y, S, m, z, lam))
+            out = ConjGrad(fop, bop, num_iters=k, tol=tol, bk_update_type=upd)(y, S, m, z, lam)
+        xk = cplx(out)
         ek = err_b(xk)
         errs.append(ek)
         stopped_legitimately = stat(xk) < tol * (1 + 1e-3)
-        if not ek <= errs[-2] + 1e-4 * e0:
+        stalled = bool(torch.equal(out, prev))          # one more pass allowed, the very same tensor returned
+        prev = out
+        if not ek <= errs[-2] + slack:
             fails.append((f"cg-energy-error-increase-{prm['update']}", f"||x_k - x*||_B increases from {errs[-2]:.6g} (num_iters = {k - 1}) to "
                                                                         f"{ek:.6g} (num_iters = {k}); cond(B) = {cond:.3g}"))
             break
-        if errs[-2] > 1e-3 * e0 and not ek < errs[-2] and not stopped_legitimately:
+        if errs[-2] > 1e-3 * e0 and stalled and not stopped_legitimately and den0 ** 2 < 1e36:
             fails.append((f"cg-stalls-before-tolerance-{prm['update']}",
                           f"num_iters = {k} returns no better iterate than num_iters = {k - 1} (||x - x*||_B = {ek:.6g}, start {e0:.6g}) although "
                           f"the residual statistic {stat(xk):.3g} of the returned x is not below tol = {tol:g}: the loop is left for "
@@ -979,7 +995,23 @@ def _cg_budget_case(prm: dict):
             break
     rel = math.sqrt(sum(float((xk[i] - sols[i]).abs().pow(2).sum()) for i in range(n_))) / \
         (math.sqrt(sum(float(s_.abs().pow(2).sum()) for s_ in sols)) + 1e-12)
-    return fails, {"cond": cond, "energy_error_ratio_at_budget": errs[-1] / (e0 + 1e-300), "rel_to_dense_at_budget": rel}
+    return fails, {"cond": cond, "energy_error_ratio_at_budget": errs[-1] / (e0 + 1e-300), "rel_to_dense_at_budget": rel,
+                   "first_pass_denominator": den0}
+
+
+def _float_range_note():
+    """one fixed input with map magnitudes so large that |<r, B p>|^2 leaves the float32 range"""
+    prm = {"op": "cgbudget", "shape": [1, 4, 6, 6], "seed": 971690737, "centered": True, "mask": "percoil", "lam": 0.5, "update": "PRP",
+           "sens_sigma": 2.0, "iters": 3, "tol": 1e-8}
+    try:
+        _, info = _cg_budget_case(prm)
+    except Exception as e:  # noqa: BLE001
+        return {"observation": f"float-range probe failed: {err_name(e)}"}
+    return {"observation": "un-normalised maps with log-normal magnitudes sigma = 2 (|S| up to a few hundred): |<r, B p>| = "
+                           f"{info['first_pass_denominator']:.3g} in the first pass, its square is outside the float32 range, `complex_division` "
+                           f"returns a step length 0 and ConjGrad returns its start unchanged (energy-error ratio after 3 passes "
+                           f"{info['energy_error_ratio_at_budget']:.3g}) — a consequence of the float32 squaring formulas recorded as known "
+                           "finding `float-range:complex_division:divisor-square-overflow-zero` of C02; such magnitudes are kept out of the judged inputs", "input": prm}
 
 
 def _three_d_notes():
@@ -1080,7 +1112,7 @@ def oracle(ctx: Ctx, deep: bool = False):
         prm = {"op": "cgbudget", "shape": [rng.choice([1, 1, 2]), rng.choice([2, 4]), h_, w_], "seed": rng.randrange(2 ** 31),
                "centered": rng.random() < 0.5, "mask": rng.choice(["random", "columns", "columns", "percoil"]),
                "lam": rng.choice([0.05, 0.05, 0.1, 0.5]), "update": "FR" if i % 2 == 0 else "PRP",
-               "sens_sigma": rng.choice([1.0, 1.5, 2.0]), "iters": iters, "tol": tol}
+               "sens_sigma": rng.choice([1.0, 1.25, 1.5]), "iters": iters, "tol": tol}
         try:
             fails, info = _cg_budget_case(prm)
         except Exception as e:  # noqa: BLE001
@@ -1090,9 +1122,10 @@ def oracle(ctx: Ctx, deep: bool = False):
                   bucket=f"oracle/cgbudget/{prm['update']}/iters={iters}/cond=1e{int(math.log10(max(info.get('cond', 1.0), 1.0)))}")
         for key, what in fails:
             yield Violation(key, what, {**prm, "observed": info})
+    ctx.notes.append(_float_range_note())
     ctx.notes.append({"observation": f"ill-conditioned normal equations (log-normal map magnitudes, lambda 0.05-0.5, cond(B) up to {worst_cond:.2g}) under the "
                                      f"shipped budgets num_iters 10-15: the returned iterate is up to {worst_rel:.2g} (relative, 2-norm) away from the dense "
-                                     "solution — the budget, not the tolerance, ends the loop; the energy-norm error decreased strictly at every pass "
+                                     "solution — the budget, not the tolerance, ends the loop; the energy-norm error never increased and every pass moved the iterate "
                                      "in all cases (the property's 'to solver tolerance' is met only in the sense of `cg_exit_guarantee`)"})
 
     # ---- ConjGrad on a batch: one common pass count (batch-mean stopping rule), per sample never worse
